@@ -2,7 +2,7 @@
 """Writes /verif/MANIFEST.json from the table below (kept in one place so that it stays valid)."""
 import json, os, subprocess
 ROOT = os.path.dirname(os.path.dirname(os.path.abspath(__file__)))
-hooks_commits = ["54f3e88", "282fbb2"]
+hooks_commits = ["54f3e88", "282fbb2", "529567f"]
 CHECKS = {
  # id: (category, technique, text, note, design_ref)
  "C04": ("exploration", "runtime monitoring: independent reference controller (refctl) verifying every proof/signature/key against a real transport",
@@ -24,7 +24,7 @@ CHECKS = {
          "Every New* constructor of characteristic/service/accessory found in the tree at check time is called under recover and compared with the bundled metadata (type id, format, perms, unit, min/max/step, default) and with its own Type constant; services checked for required characteristics and duplicate types. Finite and exhaustive at every run.",
          "trusted base: go/parser-based generator (cross-checked by a textual recount), encoding/json", "DESIGN.md §5 C15"),
  "C16": ("exploration", "runtime monitoring: differential testing against an independent TLV8 codec + model of set operations, parser fuzzing with truncations and mutations",
-         "All tags 0..255, all lengths 0..1024 for several tags, long values to 70000 bytes, sequences of sets with repeated/interleaved tags; parser inputs: exhaustive tiny inputs, random, every truncation and length-byte mutation of valid encodings.",
+         "All tags 0..255, all lengths 0..1024 for several tags, long values to 70000 bytes, sequences of sets with repeated/interleaved tags, the caller overwrites its buffer right after every SetBytes; parser inputs: exhaustive tiny inputs, random, every truncation and length-byte mutation of valid encodings.",
          "trusted base: refctl TLV8 codec (self-tested)", "DESIGN.md §5 C16"),
  "C18": ("exploration", "runtime monitoring: model-based history checking (map model) with in-process and child-process reopen, witness shrinking",
          "Generated histories of Set/Get/Delete/KeysWithSuffix and SaveEntity/EntityWithName/DeleteEntity/Entities over few keys with values 0..4096 bytes biased to shorter/longer overwrites, arbitrary-byte entity names, reopen between segments (real child processes for a subset).",
@@ -38,11 +38,11 @@ CHECKS = {
  "C02": ("exploration", "runtime monitoring: message-sequence exploration of the pair-setup state machine with a database-snapshot invariant after every message (in-process controller and real transport)",
          "Every sequence up to length 2 (quick) / 3 (thorough) over a 16-symbol core alphabet, critical prefixes x the full 26-symbol alphabet, random sequences of length 3..8 on one or two connections sharing a database; invariant: stored entities change only by a genuine key exchange of an exchange whose SRP proof the monitor itself completed.",
          "trusted base: refctl SRP/HKDF/AEAD use (self-tested); responses are not part of the verdict", "DESIGN.md §5 C02"),
- "C03": ("exploration", "runtime monitoring: message-sequence exploration of pair-verify at the endpoint (session state observed after every message) and on a real transport (plaintext / ciphertext probes)",
-         "All sequences up to length 2 (quick) / 3 (thorough) over a 21-symbol alphabet plus random sequences, pairing sets of 0..3 controllers incl. a removed one, one or two connections; oracle: the session may become verified only by a finish that is genuine for the exchange opened by the last accepted start, every other message is answered with an error; full stack: plaintext still answered, ciphertext under peer-derived keys never served.",
-         "trusted base: refctl; the monitor builds every message and knows which are genuine", "DESIGN.md §5 C03"),
+ "C03": ("exploration", "runtime monitoring: message-sequence exploration of pair-verify at the endpoint (session state observed after every message) and on a real transport (plaintext / ciphertext probes); linearizability checking (porcupine) of recorded concurrent add / remove / pair-verify histories",
+         "All sequences up to length 2 (quick) / 3 (thorough) over a 21-symbol alphabet plus random sequences, pairing sets of 0..3 controllers incl. a removed one, one or two connections; oracle: the session may become verified only by a finish that is genuine for the exchange opened by the last accepted start, every other message is answered with an error; full stack: plaintext still answered, ciphertext under peer-derived keys never served. Harness L: 40 (quick) / 1500 (thorough) rounds on fresh storage with pairings stored before the start, two administrator connections adding / replacing / removing pairings while four clients run complete pair-verifies, call/return times recorded at the client boundary, quiescent probe verifies at the end; the outcomes must be linearizable against a per-name register of the stored key (P-compositional, porcupine v1.3.0), schedules widened by delays at the storage.* hook points.",
+         "trusted base: refctl; the monitor builds every message and knows which are genuine; porcupine; storage.* hooks only inject delay", "DESIGN.md §5 C03, §12.7"),
  "C14": ("exploration", "runtime monitoring: structural invariants over generated accessory compositions built twice, served JSON checked by an independent decoder",
-         "Recipes (every accessory constructor, synthetic accessories from every service/characteristic constructor, linked/hidden/primary flags, explicit/automatic/colliding ids, up to 40 accessories) are built two or three times from scratch; ids unique, non-zero, deterministic; marshalled and served attribute database well-formed.",
+         "Recipes (every accessory constructor, synthetic accessories from every service/characteristic constructor, linked/hidden/primary flags, explicit/automatic/colliding ids, up to 40 accessories) are built two or three times from scratch; ids unique, non-zero, deterministic; marshalled and served attribute database well-formed. Served size sweep: one database whose body takes every length of a contiguous range > 2*2048 bytes (all residues modulo the 2048-byte chunk and the 1024-byte frame).",
          "trusted base: encoding/json generic decoding, refctl for the served subset", "DESIGN.md §5 C14"),
  "C17": ("exploration", "runtime monitoring: differential testing of tlv8.Marshal against an independent reflect-based reference encoder, round-trip checking, decoder fuzzing under recover",
          "Boundary battery and random values of all 23 rtp message types and 26 synthetic structs covering every field kind; oracle: Unmarshal(Marshal(v)) == v, Marshal(v) == reference encoding, arbitrary bytes decode without panic; root-cause attribution by single-field isolation.",
@@ -57,10 +57,10 @@ CHECKS = {
          "88 hostile values (numbers of all magnitudes and signs, numeric and non-finite strings, bools, null, arrays, objects, repeated composites, Go-native ints/uints/float32) x local / remote / get-callback updates, pairs and random sequences; oracle after every update: Go type of the stored value matches the format, integer formats in range, within declared min/max, typed getter returns, attribute database encodes.",
          "panics are attributed by stack frames inside package characteristic; trusted base: refctl for the HTTP path", "DESIGN.md §5 C12"),
  "C20": ("exploration", "runtime monitoring: restart histories on one storage against a model (own structure fingerprint), exhaustive setup-code enumeration, independent setup-URI decoder",
-         "Histories of 4..7 runs with value-only and 14 kinds of structural changes, pair / unpair / add-controller in between, in-process and child-process restarts; oracle: id, key pair and pairings stable, c# +1 iff the served database without values changed, c# == version file, sf == 1 iff no controller stored (re-checked after every pair/unpair without restart); ValidatePin on sampled (quick) / all 10^8 (thorough) codes and 20000 non-code strings; X-HM URI decoded independently for all categories x flags.",
-         "trusted base: refctl, VerifTXT hook (returns the live txt records)", "DESIGN.md §5 C20"),
+         "Histories of 4..7 runs with value-only and 14 kinds of structural changes, pair / unpair / add-controller in between, in-process and child-process restarts; oracle: id, key pair and pairings stable, c# +1 iff the served database without values changed, c# == version file, sf == 1 iff no controller stored (re-checked after every pair/unpair without restart); ValidatePin on sampled (quick) / all 10^8 (thorough) codes and 20000 non-code strings; X-HM URI decoded independently for all categories x flags. Structure sweep: 3000 / 60000 distinct small structures through a six-run restart history without a started transport (content-dependent storage defects). Killed starts: a child process kills itself at the N-th storage.set.enter hook point of a start with changed / unchanged structure, followed by complete starts (c# moves by 1 or 2 after a change, not at all without one, then stays; device id constant).",
+         "trusted base: refctl, VerifTXT hook (returns the live txt records), storage.set.enter hook (kill point)", "DESIGN.md §5 C20, §12.7"),
  "C10": ("exploration", "runtime monitoring: subscription-model checker over generated multi-connection histories with a fence after every operation (exact per-connection EVENT multisets), concurrent exactly-once variant, race detector",
-         "3..5 verified controllers, 2..4 accessories, histories of 40 operations (subscribe, unsubscribe, local set, remote write changing / same value, combined PUT, close FIN/RST, reconnect, join via /pairings); after every operation every live connection is fenced and the EVENTs received are compared with the model; closed connections checked through hc's debug log after bounded progress; concurrent writers on distinct characteristics with connection churn checked offline for exactly-once and under -race (reports filtered to notifyListener / session / context).",
+         "3..5 verified controllers, 2..4 accessories, histories of 40 operations (subscribe, unsubscribe, local set, remote write changing / same value, combined PUT, value+ev in one entry for a read-only characteristic, close FIN/RST, reconnect, join via /pairings); after every operation every live connection is fenced and the EVENTs received are compared with the model; closed connections checked through hc's debug log after bounded progress; concurrent writers on distinct characteristics with connection churn checked offline for exactly-once and under -race (reports filtered to notifyListener / session / context).",
          "trusted base: refctl; hc writes EVENTs synchronously inside the changing call (the fence argument of DESIGN §3.4)", "DESIGN.md §5 C10"),
  "C13": ("exploration", "runtime monitoring: hostile-message fuzzing per protocol state against real transports in child processes; oracle = captured net/http panic log + well-formed (error) response + honest continuation on the same and on a new connection",
          "Per case an honest prefix reaches one of six protocol states, then one hostile message of 63 classes (random bytes, structural TLV mutations of the correct next message, short / wrong-tag encrypted data, unknown steps / methods, hostile JSON, HTTP oddities, remote-address reuse) is sent; no panic line attributable to the request, a well-formed response that is an error when the message cannot be processed, and the state-appropriate honest handshake still succeeds on the same connection (at most one rejected start) and on a new one; 'no answer' by bounded progress; a dying child identifies its last logged input.",
